@@ -84,6 +84,7 @@ const (
 	MetaMaxSize            = 512 // Maximum size for node meta data
 	compoundHeaderOverhead = 2   // Assumed header overhead
 	compoundOverhead       = 2   // Assumed overhead per entry in compoundHeader
+	crcHeaderOverhead      = 5   // hasCrcMsg type byte plus the 4 byte checksum
 	userMsgOverhead        = 1
 	blockingWarning        = 10 * time.Millisecond // Warn if a UDP packet takes this long to process
 	maxPushStateBytes      = 20 * 1024 * 1024
@@ -801,7 +802,7 @@ func (m *Memberlist) encodeAndSendMsg(a Address, msgType messageType, msg any) e
 // opportunistically create a compoundMsg and piggy back other broadcasts.
 func (m *Memberlist) sendMsg(a Address, msg []byte) error {
 	// Check if we can piggy back any messages
-	bytesAvail := m.config.UDPBufferSize - len(msg) - compoundHeaderOverhead - labelOverhead(m.config.Label)
+	bytesAvail := m.config.UDPBufferSize - len(msg) - compoundOverhead - compoundHeaderOverhead - crcHeaderOverhead - labelOverhead(m.config.Label)
 	if m.config.EncryptionEnabled() && m.config.GossipVerifyOutgoing {
 		bytesAvail -= encryptOverhead(m.encryptionVersion())
 	}
@@ -817,11 +818,14 @@ func (m *Memberlist) sendMsg(a Address, msg []byte) error {
 	msgs = append(msgs, msg)
 	msgs = append(msgs, extra...)
 
-	// Create a compound message
-	compound := makeCompoundMessage(msgs)
-
-	// Send the message
-	return m.rawSendMsgPacket(a, nil, compound.Bytes())
+	// Create one or more compound messages (a single one holds at most 255
+	// parts) and send them
+	for _, compound := range makeCompoundMessages(msgs) {
+		if err := m.rawSendMsgPacket(a, nil, compound.Bytes()); err != nil {
+			return err
+		}
+	}
+	return nil
 }
 
 // rawSendMsgPacket is used to send message via packet to another host without
